@@ -14,6 +14,7 @@ type GT struct {
 	T string `json:"t"`
 	V string `json:"v"`
 	K []GT   `json:"k"`
+	P string `json:"p,omitempty"` // node identity, only set by the projections that need it (links)
 }
 
 func (g GT) String() string {
